@@ -167,7 +167,12 @@ theorem bindL_lookup : ∀ (ds : List X.Decl) (n : String) (b : LBind), (bindL d
 def StmtSpec (G : GCtx) (fuel : Nat) : Prop :=
   ∀ pi ∈ G.procs, ∀ sp dep hi, G.lo ≤ sp → sp + G.S pi + pi.po + pi.p.formals.length ≤ G.spv + 1 → G.spv ≤ sp + dep * G.smax →
     ∀ s σ, okS5 G.pk G.pnames G.xc.impure s = true →
-      ExecS (KOf G pi sp dep hi) (G.iEpi pi) (optStmt (annotS (fun _ => none) s)) σ (X.exec fuel G.xc s σ)
+      ExecS (KOf G pi sp dep hi) (G.iEpi pi) (optStmt (annotS G.rho s)) σ (X.exec fuel G.xc s σ)
+
+theorem GCtx.OK.rho_none {G : GCtx} (ok : G.OK) (n : String) (h : ∀ w, G.xc.genv.lookup n ≠ some (.val w)) : G.rho n = none := by
+  cases hr : G.rho n with
+  | none => rfl
+  | some w => exact absurd ((ok.rho_ok n w).mpr hr) (h w)
 
 /-- What an activation's memory says about the global state. -/
 theorem Rep.toG {G : GCtx} (ok : G.OK) {pi : PInfo} (hpi : pi ∈ G.procs) {sp dep : Nat} {hi : Nat → Word}
@@ -180,7 +185,8 @@ theorem Rep.toG {G : GCtx} (ok : G.OK) {pi : PInfo} (hpi : pi ∈ G.procs) {sp d
       show X.readName G.xc σ n = .ok (.int w)
       unfold X.readName
       rw [hl, hv, hg]
-    obtain ⟨a, hloc, _, hm⟩ := h.vars n w rfl hr
+    have hρ : (KOf G pi sp dep hi).ρ n = none := ok.rho_none n (by rw [hv]; simp)
+    obtain ⟨a, hloc, _, hm⟩ := h.vars n w hρ hr
     have : G.locOf pi sp n = some a := hloc
     rw [ok.gloc_ok pi hpi sp n hn] at this
     exact ⟨a, this, hm⟩
@@ -232,9 +238,12 @@ theorem rep_callee {G : GCtx} (ok : G.OK) {pi : PInfo} (hpi : pi ∈ G.procs) (w
     exact hv (ok.noshadow pi hpi n hm)
   exact {
     sp := hP1
-    vals := fun n w h => by simp [KOf] at h
+    vals := by
+      intro n w h
+      have hgv := (ok.rho_ok n w).mpr h
+      exact Or.inr ⟨hglob n (by rw [hgv]; simp), hgv⟩
     vars := by
-      intro n w _ hr
+      intro n w hρ hr
       change X.readName G.xc (calleeSt st pi ws) n = .ok (.int w) at hr
       unfold X.readName at hr
       cases hl : (calleeSt st pi ws).locals.lookup n with
@@ -278,7 +287,7 @@ theorem rep_callee {G : GCtx} (ok : G.OK) {pi : PInfo} (hpi : pi ∈ G.procs) (w
         | some g =>
           rw [hgv] at hr
           cases g with
-          | val w' => exact absurd hgv (ok.no_vals n w')
+          | val w' => have := (ok.rho_ok n w').mp hgv; rw [show G.rho n = none from hρ] at this; simp at this
           | array id => simp at hr
           | proc q => simp at hr
           | var =>
@@ -405,7 +414,7 @@ theorem rep_callee {G : GCtx} (ok : G.OK) {pi : PInfo} (hpi : pi ∈ G.procs) (w
         | some g =>
           rw [hgv] at hr
           cases g with
-          | val w' => exact absurd hgv (ok.no_vals n w')
+          | val w' => simp at hr
           | proc q => simp at hr
           | var =>
             exfalso
